@@ -1428,7 +1428,8 @@ func cfgValid(cfg *ResponseConfig) bool {
 //@   requires cfg != nil
 //@   ensures  valid: result == nil ==> (cfg.TimeShiftBufferDepthS == nil || (*cfg.TimeShiftBufferDepthS >= 0 && *cfg.TimeShiftBufferDepthS <= MAX_TIME_SHIFT_BUFFER_DEPTH_S)) && (cfg.PeriodsPerHour == nil || (*cfg.PeriodsPerHour >= 1 && *cfg.PeriodsPerHour <= 3600)) && cfg.TimeSubsDurMS >= 1 && cfg.TimeSubsDurMS <= 1000 && (cfg.SCTE35PerMinute == nil || (*cfg.SCTE35PerMinute >= 1 && *cfg.SCTE35PerMinute <= 3))
 //@   ensures  stopNotBeforeStart: result == nil ==> (cfg.StopTimeS == nil || *cfg.StopTimeS >= cfg.StartTimeS)
-//@   ensures  kept: cfg.StopTimeS == old(cfg.StopTimeS) && cfg.StartTimeS == old(cfg.StartTimeS) && cfg.TimeShiftBufferDepthS == old(cfg.TimeShiftBufferDepthS) && cfg.PeriodsPerHour == old(cfg.PeriodsPerHour) && cfg.TimeSubsDurMS == old(cfg.TimeSubsDurMS) && cfg.SCTE35PerMinute == old(cfg.SCTE35PerMinute) && cfg.SegStatusCodes == old(cfg.SegStatusCodes) && cfg.Traffic == old(cfg.Traffic)
+//@   ensures  startNrInRange: result == nil ==> (cfg.StartNr == nil || (*cfg.StartNr >= 0 && *cfg.StartNr <= 1000000000))
+//@   ensures  kept: cfg.StopTimeS == old(cfg.StopTimeS) && cfg.StartTimeS == old(cfg.StartTimeS) && cfg.TimeShiftBufferDepthS == old(cfg.TimeShiftBufferDepthS) && cfg.PeriodsPerHour == old(cfg.PeriodsPerHour) && cfg.TimeSubsDurMS == old(cfg.TimeSubsDurMS) && cfg.SCTE35PerMinute == old(cfg.SCTE35PerMinute) && cfg.SegStatusCodes == old(cfg.SegStatusCodes) && cfg.Traffic == old(cfg.Traffic) && cfg.StartNr == old(cfg.StartNr)
 //@   assigns  cfg.LatencyTargetMS
 //@   allocates
 
@@ -1438,7 +1439,8 @@ func cfgValidScalars(cfg *ResponseConfig) bool {
 		(cfg.PeriodsPerHour == nil || (*cfg.PeriodsPerHour >= 1 && *cfg.PeriodsPerHour <= 3600)) &&
 		cfg.TimeSubsDurMS >= 1 && cfg.TimeSubsDurMS <= 1000 &&
 		(cfg.SCTE35PerMinute == nil || (*cfg.SCTE35PerMinute >= 1 && *cfg.SCTE35PerMinute <= 3)) &&
-		(cfg.StopTimeS == nil || *cfg.StopTimeS >= cfg.StartTimeS)
+		(cfg.StopTimeS == nil || *cfg.StopTimeS >= cfg.StartTimeS) &&
+		(cfg.StartNr == nil || (*cfg.StartNr >= 0 && *cfg.StartNr <= 1000000000))
 }
 
 // processURLCfg: never crashes, and an accepted URL yields a configuration whose scalar
@@ -1638,7 +1640,7 @@ func isImageSpec(p string) bool { return isImage(p) }
 //@   exit 4 requires onlyMediaNeedsParsedSegment: !isImageSpec(segmentPart) && so.seg == nil
 //@   callsite chunkSegment requires notAnImage: !isImageSpec(segmentPart) && so.seg != nil
 //@   callsite chunkSegment requires positive: arg_chunkDur > 0
-//@   callsite chunkSegment requires advertised: arg_chunkDur == (a.SegmentDurMS - int(cfg.AvailabilityTimeOffsetS*1000.0)) * int(so.meta.rep.MediaTimescale) / 1000 && arg_segMeta == so.meta && arg_seg == so.seg
+//@   callsite chunkSegment requires whatTheOffsetLeavesOfThisSegment: arg_chunkDur == int(so.meta.newDur) - int(cfg.AvailabilityTimeOffsetS*1000.0) * int(so.meta.rep.MediaTimescale) / 1000 && arg_segMeta == so.meta && arg_seg == so.seg
 //@   loop 1 invariant true
 //@   loop 2 invariant 0 <= rangeidx && rangeidx <= len(chunks) && chunkAvailTime == int(so.meta.newTime) + cfg.StartTimeS*int(rep.MediaTimescale) + sumChunkDurs(chunks, rangeidx)
 
@@ -1650,6 +1652,7 @@ func isImageSpec(p string) bool { return isImage(p) }
 //@   wiring
 //@   returns (code, err)
 //@   ensures  codeOnlyWithoutError: err != nil ==> code == 0
+//@   callsite writeChunkedSegment requires generatedSubtitlesAreNotChunked: !isTimeSubsMedia
 //@ func writeLiveSegment
 //@   wiring
 //@   loop 1 invariant true
@@ -2189,7 +2192,7 @@ func contiguousUpTo(r *RepData, n int) bool {
 // and a SegmentTimeline is the video's converted by changeTimelineTimescale.
 //@ func addTimeSubs
 //@   wiring
-//@   callsite Ptr[uint32] requires durationInMs: arg0 == uint32(100+i) || arg0 == (*vST.Duration) * 1000 / vST.GetTimescale()
+//@   callsite Ptr[uint32] requires durationInMs: arg0 == uint32(100+i) || arg0 == uint32(uint64(*vST.Duration) * 1000 / uint64(vST.GetTimescale()))
 //@   callsite changeTimelineTimescale requires fromVideoTimeline: arg0 == vST.SegmentTimeline && arg1 == int(*vST.Timescale) && arg2 == SUBS_TIME_TIMESCALE
 //@   callsite SetTimescale requires subtitleTimescale: arg1 == SUBS_TIME_TIMESCALE
 
@@ -2226,6 +2229,7 @@ func contiguousUpTo(r *RepData, n int) bool {
 //@   nowrap assumed
 //@   callsite append:se.entries requires entryIsBoundaryDistance: vararg0 != nil && vararg0.D == d && vararg0.R == 0 && (len(se.entries) == 0 ==> vararg0.T != nil && *vararg0.T == t)
 //@   store s.R++ requires runOfEqualDurations: s.D == d
+//@   store timeScale := requires frameDurationAsMeasured: rep.ConstantSampleDuration != nil && *rep.ConstantSampleDuration != 0 ==> sampleDur == uint64(*rep.ConstantSampleDuration)
 //@   store d := requires distanceToNextBoundary: d == calcAudioTimeFromRef(nextRefT, refTimescale, sampleDur, timeScale) - t
 //@   exit 2 requires sameNumbering: se.startNr == refSE.startNr && se.mediaTimescale == uint32(rep.MediaTimescale)
 //@   loop 2 invariant audioBoundaryOfRefBoundary: t == calcAudioTimeFromRef(nextRefT, refTimescale, sampleDur, timeScale)
